@@ -36,38 +36,34 @@ def putOptInt : Option Int → Sexp
 def bitsOf (s : String) : Option (List Bool) :=
   s.toList.mapM fun c => if c == '1' then some true else if c == '0' then some false else none
 
-mutual
-  partial def getBox : Sexp → Option Box
-    | .list [.atom "b", .atom ty, .str text, el, ec, er, es, .atom bits, cap, disp, cs, rs, gx, .list kids, .list cols] => do
-      let ty ← tyOf ty
-      let bs ← bitsOf bits
-      match bs with
-      | [fl, ab, ru, wsc, tw, hd, ft, fi, gi] =>
-        let a : Attrs := { text := text, el := ← el.asInt?, ec := ← optInt ec, er := ← optInt er, es := ← optInt es,
-                           floated := fl, absPos := ab, running := ru, wsc := wsc, cap := ← cap.asNat?, disp := ← disp.asNat?,
-                           tw := tw, hd := hd, ft := ft, fi := fi, gi := gi,
-                           colspan := ← cs.asNat?, rowspan := ← rs.asNat?, gridX := ← gx.asNat? }
-        some (.mk ty a (← getBoxes kids) (← getBoxes cols))
-      | _ => none
+/-- decode a box; `fuel` bounds the nesting depth (the harness never sends trees deeper than a few dozen) -/
+def getBox : Nat → Sexp → Option Box
+  | 0, _ => none
+  | fuel + 1, .list [.atom "b", .atom ty, .str text, el, ec, er, es, .atom bits, cap, disp, cs, rs, gx, .list kids, .list cols] => do
+    let ty ← tyOf ty
+    let bs ← bitsOf bits
+    match bs with
+    | [fl, ab, ru, wsc, tw, hd, ft, fi, gi] =>
+      let a : Attrs := { text := text, el := ← el.asInt?, ec := ← optInt ec, er := ← optInt er, es := ← optInt es,
+                         floated := fl, absPos := ab, running := ru, wsc := wsc, cap := ← cap.asNat?, disp := ← disp.asNat?,
+                         tw := tw, hd := hd, ft := ft, fi := fi, gi := gi,
+                         colspan := ← cs.asNat?, rowspan := ← rs.asNat?, gridX := ← gx.asNat? }
+      some (.mk ty a (← kids.mapM (getBox fuel)) (← cols.mapM (getBox fuel)))
     | _ => none
-  partial def getBoxes : List Sexp → Option (List Box)
-    | [] => some []
-    | x :: xs => do
-      let b ← getBox x
-      let bs ← getBoxes xs
-      some (b :: bs)
-end
+  | _, _ => none
+
+def depthFuel : Nat := 100000
 
 def bit (b : Bool) : String := if b then "1" else "0"
 
 mutual
-  partial def putBox : Box → Sexp
+  def putBox : Box → Sexp
     | .mk ty a kids cols =>
       .list [.atom "b", .atom (tyName ty), .str a.text, ofInt a.el, putOptInt a.ec, putOptInt a.er, putOptInt a.es,
              .atom (bit a.floated ++ bit a.absPos ++ bit a.running ++ bit a.wsc ++ bit a.tw ++ bit a.hd ++ bit a.ft ++ bit a.fi ++ bit a.gi),
              ofNat a.cap, ofNat a.disp, ofNat a.colspan, ofNat a.rowspan, ofNat a.gridX,
              .list (putBoxes kids), .list (putBoxes cols)]
-  partial def putBoxes : List Box → List Sexp
+  def putBoxes : List Box → List Sexp
     | [] => []
     | b :: bs => putBox b :: putBoxes bs
 end
@@ -88,12 +84,12 @@ def handle (req : Sexp) : Sexp :=
   let r : Option Sexp := match req with
     | .list [.atom "lattice"] => some lattice
     | .list [.atom "passes", b] => do
-      let b ← getBox b
+      let b ← getBox depthFuel b
       match createAnonymousStages b with
       | .ok s => some (ok [putBox s.table, putBox s.flex, putBox s.grid, putBox s.iib, putBox s.bii])
       | .error e => some (.list [.atom "err", .str e])
     | .list [.atom "pass", .atom name, b] => do
-      let b ← getBox b
+      let b ← getBox depthFuel b
       let r : Option (Except String Box) := match name with
         | "table" => some (anonTable b)
         | "flex" => some (.ok (flexBoxes b))
@@ -105,7 +101,7 @@ def handle (req : Sexp) : Sexp :=
       | .ok o => some (ok [putBox o])
       | .error e => some (.list [.atom "err", .str e])
     | .list [.atom "wf", b] => do
-      let b ← getBox b
+      let b ← getBox depthFuel b
       some (ok (ofBool (wfRoot b) :: (rootReasons b).eraseDups.map fun (e, r) => .list [ofInt e, .str r]))
     | .list [.atom "intattr", p, m] => do
       some (ok [ofNat (intAttr (← optInt p) (← m.asNat?))])
